@@ -131,7 +131,11 @@ def _build_environ(scope: HTTPScope, body: bytes) -> dict:
     server = scope.get("server") or ("localhost", 80)
     path = scope["path"]
     script_name = scope.get("root_path", "")
-    if path.startswith(script_name):
+    # The root path must match whole path segments, "/app" is not a
+    # prefix of "/application".
+    if path.startswith(script_name) and (
+        script_name.endswith("/") or path[len(script_name) : len(script_name) + 1] in {"", "/"}
+    ):
         path = path[len(script_name) :]
         path = path if path != "" else "/"
     else:
